@@ -476,11 +476,102 @@ fn life_lines(run: &mut Run, id: &str, text: &str, mode: u8, settings: &Settings
     }
 }
 
+/// (d) The argument of the `unsafe { NonZeroU64::new_unchecked(..) }` in `Difficulty::clock_rate`, read back through
+/// `inspect()`: `CRB <bits>` lines against `Model/ClockRate.lean` (exact), and the oracle "an explicitly set rate is
+/// still there (`Some`), its bits are non-zero and it is a NaN or within [0.01, 100]" — a zero pattern is the UB the
+/// SAFETY comment excludes (in a release build it shows as the rate silently vanishing: `Option<NonZeroU64>` reads it
+/// as `None`).
+fn clock_rate_bits(run: &mut Run, seed: u64, thorough: bool, only: Option<&str>) {
+    let mut rng = Rng::new(seed ^ 0xC11_D);
+    let mut pats: Vec<u64> = vec![
+        0,                       // +0.0
+        1 << 63,                 // -0.0
+        1,                       // smallest subnormal
+        (1 << 63) | 1,
+        0x000F_FFFF_FFFF_FFFF,   // largest subnormal
+        0x0010_0000_0000_0000,   // smallest normal
+        0x3F84_7AE1_47AE_147A,   // just below 0.01
+        0x3F84_7AE1_47AE_147B,   // 0.01
+        0x3F84_7AE1_47AE_147C,
+        0x3FF0_0000_0000_0000,   // 1.0
+        0x3FF8_0000_0000_0000,   // 1.5
+        0x4058_FFFF_FFFF_FFFF,
+        0x4059_0000_0000_0000,   // 100.0
+        0x4059_0000_0000_0001,
+        0x7FEF_FFFF_FFFF_FFFF,   // f64::MAX
+        0x7FF0_0000_0000_0000,   // +inf
+        0xFFF0_0000_0000_0000,   // -inf
+        0x7FF8_0000_0000_0000,   // NaN
+        0xFFF8_0000_0000_0000,   // -NaN
+        0x7FF0_0000_0000_0001,   // signalling NaN payload
+        0xFFFF_FFFF_FFFF_FFFF,
+        (-1.0f64).to_bits(),
+        (-0.01f64).to_bits(),
+        (1e-300f64).to_bits(),
+    ];
+    let n_random = if thorough { 20_000 } else { 1_500 };
+    for i in 0..n_random {
+        pats.push(match i % 3 {
+            0 => rng.below(u64::MAX),
+            1 => (rng.range(1, 20_000) as f64 / 100.0).to_bits(),
+            _ => rng.below(u64::MAX) >> rng.range(0, 63),
+        });
+    }
+    for (i, b) in pats.into_iter().enumerate() {
+        let id = format!("crb-{i}");
+        if only.is_some_and(|o| o != id) {
+            continue;
+        }
+        run.count("clock-rate-bits: cases");
+        run.eval(Some(&format!("crb {b}")));
+        let x = f64::from_bits(b);
+        let got = std::panic::catch_unwind(|| Difficulty::new().clock_rate(x).inspect().clock_rate);
+        let req = format!("CRB {b}");
+        match got {
+            Ok(Some(v)) => {
+                let vb = v.to_bits();
+                run.line(&id, req, format!("{vb}"));
+                if vb == 0 || !(v.is_nan() || (0.01..=100.0).contains(&v)) {
+                    run.fail(
+                        "oracle:clock-rate-nonzero-precondition",
+                        "",
+                        &id,
+                        format!("Difficulty::clock_rate({x:?} = bits {b:#x}) stored {v:?} (bits {vb:#x})"),
+                        format!("Difficulty::new().clock_rate(f64::from_bits({b:#x})).inspect().clock_rate"),
+                    );
+                }
+            }
+            Ok(None) => {
+                run.line(&id, req, "none".into());
+                run.fail(
+                    "oracle:clock-rate-nonzero-precondition",
+                    "",
+                    &id,
+                    format!("Difficulty::clock_rate({x:?} = bits {b:#x}): the explicitly set rate reads back as None (zero bits reached NonZeroU64::new_unchecked, or the setter dropped the value)"),
+                    format!("Difficulty::new().clock_rate(f64::from_bits({b:#x})).inspect().clock_rate"),
+                );
+            }
+            Err(_) => {
+                run.line(&id, req, "panic".into());
+                run.fail(
+                    "oracle:clock-rate-nonzero-precondition",
+                    "",
+                    &id,
+                    format!("Difficulty::clock_rate({x:?} = bits {b:#x}) panicked / aborted"),
+                    format!("Difficulty::new().clock_rate(f64::from_bits({b:#x}))"),
+                );
+            }
+        }
+    }
+}
+
 pub fn run(tier: &str, seed: u64, only: Option<&str>) -> Run {
     let mut run = Run::default();
     let thorough = tier == "thorough";
     // (a)
     svops::run_sv(&mut run, tier, seed, only, true);
+    // (d) Difficulty::clock_rate -> NonZeroU64::new_unchecked(clamp(x).to_bits())
+    clock_rate_bits(&mut run, seed, thorough, only);
     // (b), (c)
     let mut rng = Rng::new(seed ^ 0xC11);
     let n = if thorough { 2000 } else { 80 };
